@@ -887,3 +887,12 @@ benign(
     ["C09", "C10", "C20"],
     (PLAN, "    for output in dag.successors(name):\n        target = nodes[output].get(\"target\", None)\n        if target is not None:\n            try:", "    checked = []\n    for output in dag.successors(name):\n        target = nodes[output].get(\"target\", None)\n        checked.append(output)\n        if target is not None:\n            try:"),
 )
+# F12 (fixed in 0aef645): the fused operation keeps the successor's fusable_with_successors
+mutant("M-F12-fuse-multiple-drops-nofuse-mark", ["C02", "C11"], "FUSE-PROV-1", (PBW, "        fusable_with_predecessors=True,\n        fusable_with_successors=primitive_op.fusable_with_successors,\n", "        fusable_with_predecessors=True,\n"))
+mutant("M-F12b-fuse-takes-mark-from-predecessor", ["C02", "C11"], "FUSE-PROV-1", (PBW, "        fusable_with_successors=primitive_op2.fusable_with_successors,\n", "        fusable_with_successors=primitive_op1.fusable_with_successors,\n"))
+benign(
+    "B-fuse-multiple-mark-via-local",
+    ["C02", "C11"],
+    (PBW, "        fusable_with_predecessors=True,\n        fusable_with_successors=primitive_op.fusable_with_successors,\n", "        fusable_with_predecessors=True,\n        fusable_with_successors=keep_unfused,\n"),
+    (PBW, "    fused_pipeline = CubedPipeline(\n        apply_blockwise,\n        gensym(\"fused_apply_blockwise\"),", "    keep_unfused = primitive_op.fusable_with_successors\n    fused_pipeline = CubedPipeline(\n        apply_blockwise,\n        gensym(\"fused_apply_blockwise\"),"),
+)
